@@ -87,7 +87,9 @@ fn case(text: &str, ord: &str) -> Value {
 }
 
 fn inv(text: &str, ord: &str, opts: &[&str]) -> Inv {
-    Inv { formula: text.as_bytes().to_vec(), channel: Channel::Evaluate, ordering: Some(ord.as_bytes().to_vec()), opts: opts.iter().map(|s| s.to_string()).collect(), dot: false, parsetree: false }
+    // the input channel rotates with the case (the ordering must apply to all three)
+    let channel = [Channel::Evaluate, Channel::File, Channel::Stdin][(crate::runner::fxhash(&(text, ord)) % 3) as usize];
+    Inv { formula: text.as_bytes().to_vec(), channel, ordering: Some(ord.as_bytes().to_vec()), opts: opts.iter().map(|s| s.to_string()).collect(), dot: false, parsetree: false }
 }
 
 fn check_cli(ctx: &mut Ctx, a: &Ast, text: &str, ord: &str, full: bool) {
